@@ -1,5 +1,6 @@
 import EvyV.Model.Interp
 import EvyV.Model.Static
+import EvyV.Model.Check
 import EvyV.Driver.FloatOps
 import EvyV.Driver.Util
 /-
@@ -201,7 +202,26 @@ def handle (line : String) : String :=
   | [_, optS, progS, evS, inS, orS] =>
     let opts := words optS
     let prog := match parseAll progS with | [p] => toProgram p | _ => { funcs := [], handlers := [], stmts := [] }
-    if optVal opts "terms" == some "2" then
+    if optVal opts "tcheck" == some "1" then
+      -- the type checker of Model/Check.lean on the serialised AST, with the function signatures
+      -- (events field) and the global types (inputs field) of the real parser
+      let sigs : List (Str × TS.FSig) := (parseAll evS).filterMap (fun x => match x with
+        | .list [.atom n, .list ps, r] =>
+          some (hexStr n, { params := ps.map toTy, ret := (match r with | .atom "-" => none | t => some (toTy t)) })
+        | _ => none)
+      let globals : List (Str × Ty) := (parseAll inS).filterMap (fun x => match x with
+        | .list [.atom n, t] => some (hexStr n, toTy t)
+        | _ => none)
+      let gl := globals ++ [(lit "err", Ty.bool), (lit "errmsg", Ty.str), (lit "pi", Ty.num)]
+      let fuel := 100000
+      let badFn := sigs.filter (fun p =>
+        !(match lookupFunc prog.funcs p.1 with
+          | some fd => TS.tcB (TS.fenvOf sigs) (TS.envOf gl) p.2.ret fuel [TS.paramScope fd.params p.2.params []] fd.body
+          | none => false))
+      if TS.checkProg sigs gl prog fuel then "TC ok"
+      else "TC no" ++ String.join (badFn.map (fun p => " fn:" ++ String.ofList p.1)) ++
+        (if TS.tcB (TS.fenvOf sigs) (TS.envOf gl) none fuel [] prog.stmts then "" else " top")
+    else if optVal opts "terms" == some "2" then
       "FNOK " ++ String.ofList (prog.funcs.flatMap (fun f =>
         [if blockTerms f.body then '1' else '0', if fnOkB false f.body then '1' else '0']))
     else if optVal opts "terms" == some "1" then
